@@ -106,29 +106,34 @@ theorem evalShaper_good (T : Ty) (c : Cache) (a : Ty) (v : Val)
     ∃ v', (evalShaper T c a v).1 = .val T v' ∧ ∀ l, l ∈ leaves T v' ↔ l ∈ leaves a v := by
   unfold evalGuard at hg
   unfold evalShaper
-  by_cases hn : v = .null
-  · subst hn; exact ⟨.null, by simp, by simp [leaves]⟩
-  · simp only [hn, if_false] at hg ⊢
-    by_cases hu : a.under = T.under
-    · simp only [hu, if_true]
-      exact ⟨v, rfl, fun l => by rw [leaves_under hu.symm v]⟩
-    · simp only [hu, if_false] at hg ⊢
-      cases hf : c.find a.under with
-      | some p =>
-        obtain ⟨typ, s⟩ := p
-        simp only [hf, Bool.and_eq_true, beq_iff_eq] at hg ⊢
-        obtain ⟨v', h1, h2⟩ := build_good s a v hg.2 ht
-        rw [hg.1] at h1 h2
-        exact ⟨v', by simp [h1, outOfBuild], h2⟩
-      | none =>
-        simp only [hf] at hg ⊢
-        cases hs : newShaper a T with
-        | error e => simp [hs] at hg
-        | ok p =>
+  by_cases he : a.isError = true
+  · simp only [he, if_true, beq_iff_eq] at hg ⊢
+    subst hg
+    exact ⟨v, rfl, fun l => Iff.rfl⟩
+  · simp only [he, Bool.false_eq_true, if_false] at hg ⊢
+    by_cases hn : v = .null
+    · subst hn; exact ⟨.null, by simp, by simp [leaves]⟩
+    · simp only [hn, if_false] at hg ⊢
+      by_cases hu : a.under = T.under
+      · simp only [hu, if_true]
+        exact ⟨v, rfl, fun l => by rw [leaves_under hu.symm v]⟩
+      · simp only [hu, if_false] at hg ⊢
+        cases hf : c.find a.under with
+        | some p =>
           obtain ⟨typ, s⟩ := p
-          simp only [hs, Bool.and_eq_true, beq_iff_eq] at hg ⊢
+          simp only [hf, Bool.and_eq_true, beq_iff_eq] at hg ⊢
           obtain ⟨v', h1, h2⟩ := build_good s a v hg.2 ht
           rw [hg.1] at h1 h2
           exact ⟨v', by simp [h1, outOfBuild], h2⟩
+        | none =>
+          simp only [hf] at hg ⊢
+          cases hs : newShaper a T with
+          | error e => simp [hs] at hg
+          | ok p =>
+            obtain ⟨typ, s⟩ := p
+            simp only [hs, Bool.and_eq_true, beq_iff_eq] at hg ⊢
+            obtain ⟨v', h1, h2⟩ := build_good s a v hg.2 ht
+            rw [hg.1] at h1 h2
+            exact ⟨v', by simp [h1, outOfBuild], h2⟩
 
 end Zed.Fuse
